@@ -71,8 +71,9 @@ func indepHmac(key, salt, info, data []byte) string {
 }
 
 type ewiPayload struct {
-	id         string
-	salt, info []byte
+	id           string
+	salt, info   []byte
+	sName, iName string // the harness's names of those byte values
 }
 
 // canonLeaf identifies how a produced value was protected, trying every candidate key
@@ -188,8 +189,18 @@ func encryptMain(args []string) {
 		}
 	}
 	ctx := context.Background()
-	salts := map[string][]byte{"-": nil, "1": []byte("salt1"), "2": []byte("salt2"), "7": []byte("salt7"), "8": []byte("salt8")}
-	infos := map[string][]byte{"-": nil, "1": []byte("info1"), "2": []byte("info2"), "7": []byte("info7"), "8": []byte("info8")}
+	// the byte values are chosen so that different (salt, info) pairs have EQUAL concatenations
+	// ("ab"+"c" = "a"+"bc", "tenant"+"" = ""+"tenant"): the derived key depends on the pair, not on its bytes run together
+	saltVal := map[string]string{"1": "ab", "2": "a", "7": "tenant", "8": "salt8"}
+	infoVal := map[string]string{"1": "c", "2": "bc", "7": "tenant", "8": "info8"}
+	salts := map[string][]byte{"-": nil}
+	infos := map[string][]byte{"-": nil}
+	for k, v := range saltVal {
+		salts[k] = []byte(v)
+	}
+	for k, v := range infoVal {
+		infos[k] = []byte(v)
+	}
 	pickOpt := func(choices []string) string { return choices[p.intn(len(choices))] }
 	// "N": nil (not supplied); "0": supplied but EMPTY (non-nil, length 0): it counts as supplied, and
 	// HKDF treats it like no salt / info at all, so it prints as "-"
@@ -200,7 +211,10 @@ func encryptMain(args []string) {
 		if s == "0" {
 			return []byte{}
 		}
-		return []byte(pre + s)
+		if pre == "salt" {
+			return []byte(saltVal[s])
+		}
+		return []byte(infoVal[s])
 	}
 	mCounter := 0
 	// the slices the caller handed to the filter (at construction, through Rotate) stay the caller's:
@@ -316,7 +330,7 @@ func encryptMain(args []string) {
 				if p.chance(1, 4) {
 					// EventWrapperInfo payload of a fixed type
 					id, es, ei := pickOpt([]string{"", "1", "2"}), pickOpt([]string{"N", "7", "0"}), pickOpt([]string{"N", "8", "0"})
-					ewi = &ewiPayload{salt: optB(es, "salt"), info: optB(ei, "info")}
+					ewi = &ewiPayload{salt: optB(es, "salt"), info: optB(ei, "info"), sName: es, iName: ei}
 					idn := 0
 					if id != "" {
 						ewi.id = "ev" + id
@@ -589,10 +603,10 @@ func encryptMain(args []string) {
 						if ewi != nil {
 							wantID = strings.TrimPrefix(ewi.id, "ev")
 							if ewi.salt != nil {
-								wantS = strings.TrimPrefix(string(ewi.salt), "salt")
+								wantS = ewi.sName
 							}
 							if ewi.info != nil {
-								wantI = strings.TrimPrefix(string(ewi.info), "info")
+								wantI = ewi.iName
 							}
 						}
 						dash := func(x string) string {
